@@ -109,8 +109,11 @@ class Header(_Header):
             self.length = packet
 
         else:
-            # indeterminate packet length
+            # indeterminate packet length: the packet is the rest of the input. Its length is known now, and it is
+            # kept - and later written - with a length field (one octet, widened as the length needs), because
+            # other packets may come to follow it (a signature added to a message, for one)
             self.length = len(packet)
+            self._llen = 1
 
 
 class VersionedHeader(Header):
